@@ -1,6 +1,10 @@
 package main
 
 import (
+	"github.com/cube2222/octosql/physical"
+	"github.com/cube2222/octosql/logical"
+	"github.com/cube2222/octosql/functions"
+	"context"
 	"bufio"
 	"fmt"
 	"strconv"
@@ -22,6 +26,15 @@ func genC09(g *Gen, tier string, w *bufio.Writer) {
 			fmt.Fprintf(w, "cmp %s %s\n", EncodeValue(a), EncodeValue(b))
 			fmt.Fprintf(w, "equal %s %s\n", EncodeValue(a), EncodeValue(b))
 			fmt.Fprintf(w, "less 1 %s %s\n", EncodeValue(a), EncodeValue(b))
+		}
+	}
+	// the SQL comparison operators on all pairs of scalars of the universe
+	sc := scalarUniverse()
+	for _, a := range sc {
+		for _, b := range sc {
+			for _, op := range []string{"eq", "ne", "lt", "le", "gt", "ge"} {
+				fmt.Fprintf(w, "opsql %s %s %s\n", op, EncodeValue(a), EncodeValue(b))
+			}
 		}
 	}
 	// triples of the universe: exhaustive on the thorough tier, sampled on quick
@@ -92,6 +105,12 @@ func driveC09(toks []string) string {
 			return "1"
 		}
 		return "0"
+	case "opsql":
+		// the SQL operators = != < <= > >= through the real overload resolution on the operands' own static types:
+		// they must agree with Compare on which values are equal and how they order
+		a, r := ParseValue(toks[2:])
+		b, _ := ParseValue(r)
+		return c09SQLOp(toks[1], a, b)
 	case "laws":
 		a, r := ParseValue(toks[1:])
 		b, r := ParseValue(r)
@@ -99,4 +118,41 @@ func driveC09(toks []string) string {
 		return fmt.Sprintf("%d %d %d %d %d %d %d", a.Compare(a), a.Compare(b), b.Compare(a), b.Compare(c), a.Compare(c), a.Hash(), b.Hash())
 	}
 	return "bad-op"
+}
+
+
+var c09OpNames = map[string]string{"eq": "=", "ne": "!=", "lt": "<", "le": "<=", "gt": ">", "ge": ">="}
+
+func c09SQLOp(sym string, a, b octosql.Value) string {
+	ts := []octosql.Type{a.Type(), b.Type()}
+	args := make([]logical.Expression, 2)
+	fields := make([]physical.SchemaField, 2)
+	for i := range ts {
+		n := "v" + strconv.Itoa(i)
+		args[i] = &typedArg13{name: n, t: ts[i]}
+		fields[i] = physical.SchemaField{Name: n, Type: ts[i]}
+	}
+	env := physical.Environment{Functions: functions.FunctionMap(), VariableContext: &physical.VariableContext{Fields: fields}}
+	var out physical.Expression
+	ok := func() (ok bool) {
+		defer func() {
+			if recover() != nil {
+				ok = false
+			}
+		}()
+		out = logical.NewFunctionExpression(c09OpNames[sym], args).Typecheck(context.Background(), env, logical.Environment{})
+		return true
+	}()
+	if !ok {
+		return "untyped"
+	}
+	e, err := out.Materialize(context.Background(), env)
+	if err != nil {
+		return "err:materialize"
+	}
+	v, err := e.Evaluate(execution.ExecutionContext{Context: context.Background(), VariableContext: &execution.VariableContext{Values: []octosql.Value{a, b}}})
+	if err != nil {
+		return "err"
+	}
+	return EncodeValue(v)
 }
